@@ -196,7 +196,19 @@ theorem parseBmm_bmm {lc : Bool} {aT bT out : List Ix} {shA shB : List Nat}
 
 /-- the batched-matmul path end to end -/
 theorem bmm_lab {sz : Ix → Nat} {aT bT out : List Ix} (lc : Bool) (hout : out.Nodup)
-    (hsub : ∀ o ∈ out, o ∈ aT ∨ o ∈ bT) (hga : lc = true ∨ aT.Nodup) (hgb : lc = true ∨ bT.Nodup)
+    (hsub : ∀ o ∈ out, o ∈ aT ∨ o ∈ bT)
+    (hga : lc = true ∨ (sameSet aT ((groups aT (aT.map sz) bT (bT.map sz) out).bat ++
+              (groups aT (aT.map sz) bT (bT.map sz) out).aKeep ++
+              (groups aT (aT.map sz) bT (bT.map sz) out).con) = true →
+            aT.length = ((groups aT (aT.map sz) bT (bT.map sz) out).bat ++
+              (groups aT (aT.map sz) bT (bT.map sz) out).aKeep ++
+              (groups aT (aT.map sz) bT (bT.map sz) out).con).length))
+    (hgb : lc = true ∨ (sameSet bT ((groups aT (aT.map sz) bT (bT.map sz) out).bat ++
+              (groups aT (aT.map sz) bT (bT.map sz) out).con ++
+              (groups aT (aT.map sz) bT (bT.map sz) out).bKeep) = true →
+            bT.length = ((groups aT (aT.map sz) bT (bT.map sz) out).bat ++
+              (groups aT (aT.map sz) bT (bT.map sz) out).con ++
+              (groups aT (aT.map sz) bT (bT.map sz) out).bKeep).length))
     {a b : FArr} (hsa : a.shape = aT.map sz) (hsb : b.shape = bT.map sz)
     (hne : (groups aT (aT.map sz) bT (bT.map sz) out).con.isEmpty = false) :
     ∃ plan r, parseBmm lc aT bT out (aT.map sz) (bT.map sz) = some plan ∧
@@ -225,7 +237,7 @@ theorem bmm_lab {sz : Ix → Nat} {aT bT out : List Ix} (lc : Bool) (hout : out.
     hout.filter _
   generalize hG : groups aT (aT.map sz) bT (bT.map sz) out = G at *
   obtain ⟨bat, con, aKeep, bKeep⟩ := G
-  simp only at hbat hcon hak hbk hn1 hn2 hn3 hn4 hndA hndB hne ⊢
+  simp only at hbat hcon hak hbk hn1 hn2 hn3 hn4 hndA hndB hne hga hgb ⊢
   generalize hS : out.filter (has (singlesSet aT (aT.map sz) bT (bT.map sz))) = singles at *
   -- the produced order
   have hprod_assoc : singles ++ bat ++ aKeep ++ bKeep = singles ++ (bat ++ aKeep ++ bKeep) := by
